@@ -496,7 +496,7 @@ theorem pollOk_of_closure {α : Type} (dat : α → Bytes) {rs : RS} {s s' : Src
 theorem pollOk_refl_eos {α : Type} (dat : α → Bytes) {rs : RS} {s : Src} (hs : SrcOk s) (hrs : rs.reset = none)
     (hadr : rs.allDataRead = true → s.segs = [] ∧ s.fin = true) (h : rs.allDataRead = true) :
     PollOk dat rs s (.ready none) rs s :=
-  ⟨by simp [pollData], hs, rfl, hrs, hadr, fun e h => by cases h, fun _ => h, fun h => h⟩
+  ⟨by simp [pollData], hs, rfl, hrs, hadr, (fun e h => by cases h), (fun _ => h), (fun h => h)⟩
 
 theorem pollRead_ok (cap : Nat) (rs : RS) (s : Src) (hs : SrcOk s) (hrs : rs.reset = none)
     (hadr : rs.allDataRead = true → s.segs = [] ∧ s.fin = true) :
@@ -504,7 +504,7 @@ theorem pollRead_ok (cap : Nat) (rs : RS) (s : Src) (hs : SrcOk s) (hrs : rs.res
   by_cases hcap : cap = 0
   · have : pollRead cap rs none s = (.ready (some []), rs, s) := by simp [pollRead, hcap]
     rw [this]
-    exact ⟨by simp [pollData], hs, rfl, hrs, hadr, fun e h => by cases h, fun h => by cases h, fun h => h⟩
+    exact ⟨by simp [pollData], hs, rfl, hrs, hadr, (fun e h => by cases h), (fun h => by cases h), (fun h => h)⟩
   · by_cases h : rs.allDataRead = true
     · have : pollRead cap rs none s = (.ready none, rs, s) := by simp [pollRead, hcap, h]
       rw [this]; exact pollOk_refl_eos id hs hrs hadr h
@@ -557,7 +557,7 @@ theorem pollReadChunks_ok (n : Nat) (rs : RS) (s : Src) (hs : SrcOk s) (hrs : rs
   by_cases hn : n = 0
   · have : pollReadChunks n rs none s = (.ready (some []), rs, s) := by simp [pollReadChunks, hn]
     rw [this]
-    exact ⟨by simp [pollData], hs, rfl, hrs, hadr, fun e h => by cases h, fun h => by cases h, fun h => h⟩
+    exact ⟨by simp [pollData], hs, rfl, hrs, hadr, (fun e h => by cases h), (fun h => by cases h), (fun h => h)⟩
   · by_cases h : rs.allDataRead = true
     · have : pollReadChunks n rs none s = (.ready none, rs, s) := by simp [pollReadChunks, hn, h]
       rw [this]; exact pollOk_refl_eos _ hs hrs hadr h
@@ -580,7 +580,7 @@ structure RInv (r : Reader) : Prop where
   eos : 0 < r.eos → r.rs.allDataRead = true
 
 theorem rinv_init : RInv Reader.init :=
-  ⟨⟨rfl, fun _ h => by cases h⟩, rfl, fun h => by cases h, rfl, fun h => by cases h⟩
+  ⟨⟨rfl, (fun _ h => by cases h)⟩, rfl, (fun h => by cases h), rfl, (fun h => by cases h)⟩
 
 theorem got_cons (r : Reader) (b : Bytes) (rs : RS) (s : Src) (e p er : Nat) :
     Reader.got { rs := rs, src := s, rparts := b :: r.rparts, eos := e, pendings := p, errs := er } = r.got ++ b := by
@@ -596,8 +596,10 @@ theorem apply_spec (r : Reader) (hr : RInv r) (p : RPoll Bytes) (rs' : RS) (s' :
     cases a with
     | some b =>
       refine ⟨⟨h.ok, h.rsReset, h.adr, hr.errs, fun he => h.adrMono (hr.eos he)⟩, ?_, h.fin⟩
-      show Reader.got _ ++ s'.segs.flatten = _
-      rw [got_cons, List.append_assoc]
+      have hg : (r.apply (RPoll.ready (some b), rs', s')).got = r.got ++ b := by
+        simp [Reader.apply, Reader.got]
+      show (r.apply (RPoll.ready (some b), rs', s')).got ++ s'.segs.flatten = _
+      rw [hg, List.append_assoc]
       have := h.cons; simp only [pollData, id] at this; rw [this]
     | none =>
       refine ⟨⟨h.ok, h.rsReset, h.adr, hr.errs, fun _ => h.eos rfl⟩, ?_, h.fin⟩
@@ -620,10 +622,9 @@ theorem applyChunks_spec (r : Reader) (hr : RInv r) (p : RPoll (List Bytes)) (rs
     cases a with
     | some bs =>
       refine ⟨⟨h.ok, h.rsReset, h.adr, hr.errs, fun he => h.adrMono (hr.eos he)⟩, ?_, h.fin⟩
-      show Reader.got _ ++ s'.segs.flatten = _
-      have hg : Reader.got { rs := rs', src := s', rparts := bs.reverse ++ r.rparts, eos := r.eos,
-          pendings := r.pendings, errs := r.errs } = r.got ++ bs.flatten := by
-        simp [Reader.got]
+      have hg : (r.applyChunks (RPoll.ready (some bs), rs', s')).got = r.got ++ bs.flatten := by
+        simp [Reader.applyChunks, Reader.got]
+      show (r.applyChunks (RPoll.ready (some bs), rs', s')).got ++ s'.segs.flatten = _
       rw [hg, List.append_assoc]
       have := h.cons; simp only [pollData] at this; rw [this]
     | none =>
@@ -737,7 +738,7 @@ theorem run_spec (steps : List RStep) : ∀ r : Reader, RInv r →
     · show ((r.step x).run xs).got ++ ((r.step x).run xs).src.segs.flatten = _
       rw [i2, s2]
       by_cases hf : r.src.fin = true
-      · simp [hf, s4 hf]
+      · cases x <;> simp [hf, s4 hf]
       · have hf' : r.src.fin = false := by simpa using hf
         cases x with
         | deliver seg =>
